@@ -173,7 +173,35 @@ def run(ctx):
 
     # ---- R3 undefined reference ---------------------------------------------------------------
     ctx.rule("C11.R3", "reference arm: qualified by exactly `no dot and namespace`; undefined -> UnknownType; unknown dict type -> UnknownType", floor=3)
-    qual = [n for n in walk_local(ps.node) if isinstance(n, ast.Assign) and norm(n) in (f"{R.schema} = {R.namespace} + '.' + {R.schema}", f"{R.schema} = f'{{{R.namespace}}}.{{{R.schema}}}'")]
+    def _is_qualification(n):
+        """<v> = <namespace> + '.' + <x> (or the f-string) with x the reference (the schema parameter or a copy of it)"""
+        if not (isinstance(n, ast.Assign) and len(n.targets) == 1 and isinstance(n.targets[0], ast.Name)):
+            return False
+        v = n.value
+        x = None
+        if isinstance(v, ast.BinOp) and isinstance(v.op, ast.Add) and norm(v.left) == f"{R.namespace} + '.'" and isinstance(v.right, ast.Name):
+            x = v.right
+        elif isinstance(v, ast.JoinedStr) and len(v.values) == 3 and isinstance(v.values[0], ast.FormattedValue) and norm(v.values[0].value) == R.namespace and isinstance(v.values[1], ast.Constant) and v.values[1].value == "." and isinstance(v.values[2], ast.FormattedValue) and isinstance(v.values[2].value, ast.Name):
+            x = v.values[2].value
+        if x is None:
+            return False
+        return x.id == R.schema or any(k == "param" and a_.arg == R.schema for k, a_ in value_sources(a, ps, x))
+
+    qual = [n for n in walk_local(ps.node) if _is_qualification(n)]
+    if len(qual) == 1:
+        # nothing the reference is (re)bound to afterwards depends on the name table either
+        chain = {qual[0].targets[0].id}
+        for _ in range(3):
+            for n in walk_local(ps.node):
+                if isinstance(n, ast.Assign) and len(n.targets) == 1 and isinstance(n.targets[0], ast.Name) and isinstance(n.value, ast.Name) and n.value.id in chain:
+                    chain.add(n.targets[0].id)
+        late = []
+        for n in walk_local(ps.node):
+            if isinstance(n, ast.Assign) and len(n.targets) == 1 and isinstance(n.targets[0], ast.Name) and n.targets[0].id in chain and n is not qual[0] and isinstance(n.value, ast.Name):
+                dep = sorted(x for x in true_facts(cfg, cfg.node_of(n)) if names_in_text(x) & {R.named, R.names})
+                if dep:
+                    late.append((n, dep))
+        ctx.check("C11.R3", "the name a reference denotes is never chosen by looking at what is already defined", not late, ps.where(late[0][0]) if late else ps.where(qual[0]), f"_parse_schema: `{norm(late[0][0])}` under {late[0][1]}" if late else "", "falling back to another spelling of the name when the qualified one is unknown binds the reference to a different type, and hides the UnknownType that tells the schema loader which file to load")
     if len(qual) != 1:
         ctx.unrecognised("C11.R3", "_parse_schema", ps.where(), "qualification `schema = namespace + '.' + schema` not found exactly once")
     else:
@@ -184,11 +212,12 @@ def run(ctx):
         else:
             t = imm[0][0].ast
             conj = sorted(norm(v) for v in (t.values if isinstance(t, ast.BoolOp) and isinstance(t.op, ast.And) else [t]))
-            ctx.check("C11.R3", "an unqualified reference is qualified with the enclosing namespace, unconditionally on anything else", conj == sorted([f"'.' not in {R.schema}", R.namespace]) and imm[0][1] == "true", ps.where(qual[0]), f"_parse_schema: qualify when {norm(t)}", "a name without dots inside a namespace denotes <namespace>.<name>; any further condition (e.g. 'not already known') lets it bind to a different type")
+            qv = norm(qual[0].value.right) if isinstance(qual[0].value, ast.BinOp) else R.schema
+            ctx.check("C11.R3", "an unqualified reference is qualified with the enclosing namespace, unconditionally on anything else", conj == sorted([f"'.' not in {qv}", R.namespace]) and imm[0][1] == "true", ps.where(qual[0]), f"_parse_schema: qualify when {norm(t)}", "a name without dots inside a namespace denotes <namespace>.<name>; any further condition (e.g. 'not already known') lets it bind to a different type")
         dom = true_facts(cfg, qn)
         tbl_dep = sorted(x for x in dom if names_in_text(x) & {R.named, R.names})
         ctx.check("C11.R3", "whether a reference is qualified does not depend on what is already defined", not tbl_dep, ps.where(qual[0]), f"_parse_schema: qualification under {tbl_dep}", "a simple name inside a namespace always denotes <namespace>.<name>: looking the bare name up first binds it to a type of the null namespace (or accepts a reference to an undefined <namespace>.<name>)")
-        unk = [n for n in walk_local(ps.node) if isinstance(n, ast.Raise) and n.exc is not None and norm(n.exc) == f"UnknownType({R.schema})" and f"{R.schema} not in {R.named}" in true_facts(cfg, cfg.node_of(n))]
+        unk = [n for n in walk_local(ps.node) if isinstance(n, ast.Raise) and n.exc is not None and any(norm(n.exc) == f"UnknownType({v_})" and f"{v_} not in {R.named}" in true_facts(cfg, cfg.node_of(n)) for v_ in chain | {R.schema})]
         ok = len(unk) == 1 and cfg.node_of(unk[0]) in cfg.reachable_from(qn)
         ctx.check("C11.R3", "after qualification an undefined name raises UnknownType", ok, ps.where(unk[0]) if unk else ps.where(), "_parse_schema: undefined reference check", "references to undefined names must be rejected, after the name was qualified")
     tail = [n for n in walk_local(ps.node) if isinstance(n, ast.Raise) and n.exc is not None and norm(n.exc) == f"UnknownType({R.schema})"]
